@@ -43,8 +43,8 @@ func Area64(path Path64) float64 {
 	prevPt := path[len(path)-1]
 	for i, pt := range path {
 		sy, dx := prevPt.Y+pt.Y, prevPt.X-pt.X
-		if hi, lo := bits.Mul64(uint64(absInt(sy)), uint64(absInt(dx))); hi != 0 || lo >= 1<<62 {
-			// the 64-bit product would wrap: sum the remaining terms in floating point, as upstream does
+		if hi, lo := bits.Mul64(uint64(absInt(sy)), uint64(absInt(dx))); hi != 0 || lo >= 1<<62 || a >= 1<<62 || a <= -(1<<62) {
+			// the 64-bit product or the running sum would wrap: sum the remaining terms in floating point, as upstream does
 			af := float64(a)
 			for _, pt2 := range path[i:] {
 				af += float64(prevPt.Y+pt2.Y) * float64(prevPt.X-pt2.X)
